@@ -17,6 +17,15 @@ Property theorems only (helpers in `Lemmas/Route.lean`).
 * The pinned tree: the substring heuristics route the three witnesses as reads
   (`C23_counterexample_…`, by `decide` on character lists).
 
+* Prefixes and wrappers (round 2): the statement model covers everything the grammar allows
+  before the first clause — leading whitespace (`renderL`), `//` and `/* */` comments,
+  `EXPLAIN` / `PROFILE` in any case — and a trailing `;`.  The plan prefix is read from the
+  tokens (`C23_prefix_reads_tokens`); `withPrefix` models what the executors do with it
+  (`EXPLAIN` never executes, `PROFILE` of a write does); the reference is `engineRun`
+  (`C23_front_eq_engineRun…`, no hypothesis on the engine); a front end that keeps "plan
+  requests" off the write path refuses `PROFILE <write>` (`C23_plan_veto_refuses`,
+  `C23_counterexample_plan_veto`).
+
 Not proved here (trusted, tied by the differential run): that the real pest parser + planner
 compute `hasWriteClause` of a statement (`routeNew` idealises them as a word scan), and
 `Engine.ReadAgree` for the real `QueryExecutor`/`MutQueryExecutor`.
@@ -24,25 +33,49 @@ compute `hasWriteClause` of a statement (`routeNew` idealises them as a word sca
 namespace SgModel.Route
 
 /-- The repaired routing reads the statement's tokens: on every valid token sequence, rendered
-with any separators and any letter case, it answers "has a write clause". -/
-theorem C23_route_reads_tokens (xs : List (Tok × Sep)) (hv : valid xs = true) :
-    routeNew (render xs) = hasWriteClause xs := by
-  simp [routeNew, hasWriteClause, scan_render xs hv]
+after any leading whitespace, with any separators, comments and letter case, it answers "has a
+write clause". -/
+theorem C23_route_reads_tokens (lead : List Sep) (xs : List (Tok × Sep)) (hv : valid xs = true) :
+    routeNew (renderL lead xs) = hasWriteClause xs := by
+  simp [routeNew, hasWriteClause, scan_renderL lead xs hv]
 
-/-- Two renderings with the same words (whatever their separators, quoting, punctuation layout
-and keyword case) are routed alike. -/
-theorem C23_route_ignores_layout (xs ys : List (Tok × Sep))
+/-- …and so do the plan prefix and "executes a write". -/
+theorem C23_prefix_reads_tokens (lead : List Sep) (xs : List (Tok × Sep)) (hv : valid xs = true) :
+    planPrefix (renderL lead xs) = prefixTok xs
+      ∧ executesWrite (renderL lead xs) = executesWriteTok xs := by
+  simp [planPrefix, prefixTok, executesWrite, executesWriteTok, routeNew, hasWriteClause,
+    scan_renderL lead xs hv]
+
+/-- Two renderings with the same words (whatever their leading whitespace, separators, comments,
+quoting, punctuation layout and keyword case) are routed alike. -/
+theorem C23_route_ignores_layout (l1 l2 : List Sep) (xs ys : List (Tok × Sep))
     (hx : valid xs = true) (hy : valid ys = true) (h : wordsOf xs = wordsOf ys) :
-    routeNew (render xs) = routeNew (render ys) := by
-  rw [C23_route_reads_tokens xs hx, C23_route_reads_tokens ys hy]
+    routeNew (renderL l1 xs) = routeNew (renderL l2 ys) := by
+  rw [C23_route_reads_tokens l1 xs hx, C23_route_reads_tokens l2 ys hy]
   simp [hasWriteClause, h]
 
 /-- Case of the letters is irrelevant: the words are compared after `toUpper`. -/
 theorem C23_route_ignores_case (w w' : List Char) (s : Sep) (r : List (Tok × Sep))
     (h : up w = up w') (hv : valid ((.word w, s) :: r) = true)
     (hv' : valid ((.word w', s) :: r) = true) :
-    routeNew (render ((.word w, s) :: r)) = routeNew (render ((.word w', s) :: r)) :=
-  C23_route_ignores_layout _ _ hv hv' (by simp [wordsOf, h])
+    routeNew (renderL [] ((.word w, s) :: r)) = routeNew (renderL [] ((.word w', s) :: r)) :=
+  C23_route_ignores_layout [] [] _ _ hv hv' (by simp [wordsOf, h])
+
+/-- **front = the engine run directly**, with no hypothesis on the engine: a front end that
+routes by the plan's `is_write` is the engine's own dispatch. -/
+theorem C23_front_eq_engineRun {Q G R : Type} (e : Engine Q G R)
+    (route : Q → Bool) (hr : ∀ q, route q = e.isWritePlan q) (q : Q) (g : G) :
+    front e route q g = engineRun e q g := by
+  simp [front, engineRun, hr q]
+
+/-- The same over statement texts: if the planner recognises the write clauses of token-level
+statements, routing by `routeNew` equals the engine on **every rendering** — any leading
+whitespace, comments, `EXPLAIN`/`PROFILE` prefix, leading clause, keyword case, separator. -/
+theorem C23_front_eq_engineRun_text {G R : Type} (e : Engine (List Char) G R)
+    (hp : ∀ lead xs, valid xs = true → e.isWritePlan (renderL lead xs) = hasWriteClause xs)
+    (lead : List Sep) (xs : List (Tok × Sep)) (hv : valid xs = true) (g : G) :
+    front e routeNew (renderL lead xs) g = engineRun e (renderL lead xs) g := by
+  simp [front, engineRun, hp lead xs hv, C23_route_reads_tokens lead xs hv]
 
 /-- **front = engine.**  A front end that routes by the plan's `is_write` returns what the
 embedded engine returns and leaves the graph the engine leaves — for every engine whose
@@ -61,15 +94,15 @@ theorem C23_front_eq_engine {Q G R : Type} (e : Engine Q G R) (ha : e.ReadAgree)
 token-level statements, then routing by `routeNew` makes the front end equal to the engine on
 **every rendering** (any leading clause, keyword case, separator) of every valid statement. -/
 theorem C23_front_eq_engine_text {G R : Type} (e : Engine (List Char) G R) (ha : e.ReadAgree)
-    (hp : ∀ xs, valid xs = true → e.isWritePlan (render xs) = hasWriteClause xs)
-    (xs : List (Tok × Sep)) (hv : valid xs = true) (g : G) :
-    front e routeNew (render xs) g = execMut e (render xs) g := by
+    (hp : ∀ lead xs, valid xs = true → e.isWritePlan (renderL lead xs) = hasWriteClause xs)
+    (lead : List Sep) (xs : List (Tok × Sep)) (hv : valid xs = true) (g : G) :
+    front e routeNew (renderL lead xs) g = execMut e (renderL lead xs) g := by
   unfold front
-  cases h : routeNew (render xs) with
+  cases h : routeNew (renderL lead xs) with
   | true => simp
   | false =>
-    have hw : e.isWritePlan (render xs) = false := by
-      rw [hp xs hv, ← C23_route_reads_tokens xs hv]; exact h
+    have hw : e.isWritePlan (renderL lead xs) = false := by
+      rw [hp lead xs hv, ← C23_route_reads_tokens lead xs hv]; exact h
     simp [execRead, execMut, hw, ha _ g hw]
 
 /-- A statement routed as a read never modifies the graph — whatever the routing function
@@ -87,16 +120,53 @@ theorem C23_misroute_refuses {Q G R : Type} (e : Engine Q G R) (route : Q → Bo
   simp [front, execRead, h, hw]
 
 /-- The model satisfies the executable specification which the harness evaluates on the
-implementation's observations: for every engine with agreeing executors, statement and graph. -/
+implementation's observations: for every engine, every predicate `ex` such that statements
+outside it leave the graph alone, every statement and graph. -/
 theorem C23_model_refines_spec {Q G R : Type} [DecidableEq G] [DecidableEq R]
-    (e : Engine Q G R) (ha : e.ReadAgree) (q : Q) (g : G) :
-    specFront (modelObs e e.isWritePlan e.isWritePlan q g) = true := by
-  have hf := C23_front_eq_engine e ha e.isWritePlan (fun _ => rfl) q g
-  cases hw : e.isWritePlan q with
-  | true => simp [specFront, specFrontCode, modelObs, hf, hw]
-  | false =>
-    have hm := ha q g hw
-    simp [specFront, specFrontCode, modelObs, hf, hw, execMut, hm]
+    (e : Engine Q G R) (ex : Q → Bool)
+    (hex : ∀ q g, ex q = false → (engineRun e q g).2 = g) (q : Q) (g : G) :
+    specFront (modelObs e ex e.isWritePlan e.isWritePlan q g) = true := by
+  have hf := C23_front_eq_engineRun e e.isWritePlan (fun _ => rfl) q g
+  cases hx : ex q with
+  | true => simp [specFront, specFrontCode, modelObs, hf, hx]
+  | false => simp [specFront, specFrontCode, modelObs, hf, hx, hex q g hx]
+
+/-! ### `EXPLAIN` / `PROFILE` (what the executors do, `withPrefix`) -/
+
+/-- `EXPLAIN` of anything modifies nothing, on either path, whatever the routing. -/
+theorem C23_explain_never_modifies {Q G R : Type} (b : Engine Q G R) (route : Prefix × Q → Bool)
+    (q : Q) (g : G) : (front (withPrefix b) route (.explain, q) g).2 = g := by
+  simp only [front, execMut, execRead, withPrefix]
+  by_cases h1 : route (.explain, q) = true <;> by_cases h2 : b.isWritePlan q = true <;> simp [h1, h2]
+
+/-- `PROFILE` of a write plan is **not** a plan-only request: the engine runs the statement. -/
+theorem C23_profile_write_runs {Q G R : Type} (b : Engine Q G R) (q : Q) (g : G)
+    (hw : b.isWritePlan q = true) :
+    engineRun (withPrefix b) (.profile, q) g = (.result (.rows (b.evalMut q g).1), (b.evalMut q g).2) := by
+  simp [engineRun, execMut, withPrefix, hw]
+
+/-- A front end that keeps plan requests (`EXPLAIN` **and** `PROFILE`) off the write path
+refuses `PROFILE <write>` and leaves the graph alone, while the engine runs it. -/
+theorem C23_plan_veto_refuses {Q G R : Type} (b : Engine Q G R) (q : Q) (g : G)
+    (hw : b.isWritePlan q = true) :
+    front (withPrefix b) (fun pq => pq.1 == Prefix.none && b.isWritePlan pq.2) (.profile, q) g
+      = (.refused, g) :=
+  C23_misroute_refuses (withPrefix b) _ (.profile, q) g (by simp) (by simpa [withPrefix] using hw)
+
+/-- Statements that do not execute a write leave the graph alone when run on `withPrefix b`,
+provided `b`'s write executor does not modify on non-write plans: the hypothesis of
+`C23_model_refines_spec` is satisfiable with `ex = (write plan ∧ not EXPLAIN)`. -/
+theorem C23_prefix_inert {Q G R : Type} (b : Engine Q G R) (pq : Prefix × Q) (g : G)
+    (h : (b.isWritePlan pq.2 && pq.1 != .explain) = false) :
+    (engineRun (withPrefix b) pq g).2 = g := by
+  obtain ⟨p, q⟩ := pq
+  cases hw : b.isWritePlan q with
+  | false => simp [engineRun, execRead, withPrefix, hw]
+  | true =>
+    have hp : p = .explain := by
+      cases p <;> simp_all
+    subst hp
+    simp [engineRun, execMut, withPrefix, hw]
 
 /-! ### The pinned tree violated the property (witnesses replayed by the corpus) -/
 
@@ -128,13 +198,39 @@ executable specification rejects exactly that observation. -/
 theorem C23_counterexample_resp_refused :
     front toyEngine routeLegacyResp w_newline_set 0 = (.refused, 0)
       ∧ execMut toyEngine w_newline_set 0 = (.result none, 1)
-      ∧ specFront (modelObs toyEngine routeLegacyResp routeNew w_newline_set 0) = false := by
+      ∧ specFront (modelObs toyEngine routeNew routeLegacyResp routeNew w_newline_set 0) = false := by
   decide
 
 /-- The heuristic also errs the other way (a read routed to the write path: harmless for the
 outcome, it only takes the exclusive lock): `RETURN ' SET '`. -/
 theorem C23_legacy_overapproximates :
     routeLegacyResp w_quoted = true ∧ routeNew w_quoted = false := by decide
+
+/-! ### The seeded class "an option vetoes the planner in one front end" -/
+
+def w_profile_create : List Char := ['P','R','O','F','I','L','E',' ','C','R','E','A','T','E',' ','(','n',':','T','h','i','n','g',' ','{','v',':',' ','1','}',')']
+def w_profile_set : List Char := ['p','r','o','f','i','l','e','\n','M','A','T','C','H',' ','(','n',':','P',' ','{','n','a','m','e',':','\'','a','\'','}',')',' ','S','E','T',' ','n','.','v',' ','=',' ','7',' ','R','E','T','U','R','N',' ','n','.','v']
+def w_explain_create : List Char := ['E','X','P','L','A','I','N',' ','C','R','E','A','T','E',' ','(','n',')']
+def w_comment_set : List Char := ['/','/',' ','S','E','T','\n','M','A','T','C','H',' ','(','n',')',' ','R','E','T','U','R','N',' ','n']
+def w_block_profile : List Char := ['/','*',' ','x',' ','*','/',' ','p','r','o','f','i','l','e',' ','c','r','e','a','t','e',' ','(','n',')']
+
+/-- `PROFILE CREATE (n:Thing {v: 1})` and `profile<LF>MATCH … SET …`: plan prefix, write plan, the
+statement executes; the veto routes them as reads. -/
+theorem C23_counterexample_plan_veto :
+    planPrefix w_profile_create = .profile ∧ executesWrite w_profile_create = true
+      ∧ routePlanVeto w_profile_create = false ∧ routeNew w_profile_create = true
+      ∧ planPrefix w_profile_set = .profile ∧ executesWrite w_profile_set = true
+      ∧ routePlanVeto w_profile_set = false ∧ routeNew w_profile_set = true := by decide
+
+/-- `EXPLAIN CREATE (n)`: a write plan that executes nothing. -/
+theorem C23_explain_write_not_executed :
+    routeNew w_explain_create = true ∧ executesWrite w_explain_create = false := by decide
+
+/-- comments are not statement text: `// SET<LF>MATCH (n) RETURN n` is a read, and
+`/* x */ profile create (n)` has the `PROFILE` prefix. -/
+theorem C23_comments_skipped :
+    routeNew w_comment_set = false ∧ planPrefix w_block_profile = .profile
+      ∧ executesWrite w_block_profile = true := by decide
 
 /-! ### Non-vacuity -/
 
@@ -158,5 +254,18 @@ example : routeNew (render ex_tokens) = true ∧ hasWriteClause ex_tokens = true
 example : routeLegacyResp (render ex_tokens) = false := by decide
 example : front toyEngine routeNew (render ex_tokens) 3 = execMut toyEngine (render ex_tokens) 3 :=
   C23_front_eq_engine toyEngine C23_toy_readAgree routeNew (fun _ => rfl) _ _
+
+/-- leading newline, block comment, `Profile`, glued parenthesis, trailing `;` -/
+def ex_prefixed : List (Tok × Sep) :=
+  [(.blockComment ['S','E','T'], .sp), (.word ['P','r','o','f','i','l','e'], .lf),
+   (.word ['c','r','e','a','t','e'], .none), (.sym '(', .none), (.word ['n'], .none), (.sym ')', .none),
+   (.sym ';', .none)]
+
+example : valid ex_prefixed = true := by decide
+example : renderL [.lf, .sp] ex_prefixed
+    = ['\n',' ','/','*','S','E','T','*','/',' ','P','r','o','f','i','l','e','\n','c','r','e','a','t','e','(','n',')',';'] := by
+  decide
+example : prefixTok ex_prefixed = .profile ∧ executesWriteTok ex_prefixed = true
+    ∧ routePlanVeto (renderL [.lf, .sp] ex_prefixed) = false := by decide
 
 end SgModel.Route
